@@ -528,7 +528,11 @@ func (g *gen) file() *fileT {
 				colon = " :"
 			}
 			for k := dup(); k > 0; k-- {
-				meta(fmt.Sprintf("SIG_VALTYPE_ %s%s %d;", target, colon, []int{0, 1, 1, 1, 2}[r.Intn(5)]))
+				vt := []int{0, 0, 1, 2}[r.Intn(4)]
+				if s.len == 32 {
+					vt = []int{0, 1, 1, 1, 2}[r.Intn(5)]
+				}
+				meta(fmt.Sprintf("SIG_VALTYPE_ %s%s %d;", target, colon, vt))
 			}
 		}
 		if r.Intn(4) == 0 {
